@@ -17,6 +17,7 @@ SETS = {
     "left/right": ([("Left", "Right"), ("left", "right")], []),
     "in/out": ([("In", "Out"), ("in", "out"), ("true", "false")], []),
     "x/y": ([("X", "Y"), ("x", "y"), ("width", "height"), ("Width", "Height"), ("w", "h")], []),
+    "x/y+dims": ([("X", "Y"), ("x", "y"), ("XDIM", "YDIM"), ("XL_EDGE", "YL_EDGE"), ("XH_EDGE", "YH_EDGE"), ("Avoid::XDIM", "Avoid::YDIM")], []),
     "src/dst": ([("src", "dst"), ("Src", "Dst")], []),
     "begin/finish": ([("Begin", "Finish"), ("begin", "finish"), ("front", "back")], []),
 }
@@ -26,7 +27,7 @@ PART = re.compile(r"[A-Z]+(?![a-z])|[A-Z]?[a-z0-9]+|_+")
 
 
 def swap_ident(w, table):
-    if w in ("NEGDBLMAX", "POSDBLMAX"):
+    if w in ("NEGDBLMAX", "POSDBLMAX") or (w in table and len(w) > 1 and w.isupper()):
         return table[w]
     if PROT.match(w):
         return w
@@ -69,3 +70,18 @@ def mirror_equal(f, g, set_name):
     while i < n and am[i] == b[i]:
         i += 1
     return False, (am[max(0, i - 60):i + 60].replace("\n", " "), b[max(0, i - 60):i + 60].replace("\n", " "))
+
+
+def mirror_blocks_equal(a, b, set_name):
+    """Two statements of one function (locals kept by name) are mirror images under the swap."""
+    from .canon import Canon
+    fa = _norm(str(Canon(ns_map=(), keep_names=True).form(a)))
+    fb = _norm(str(Canon(ns_map=(), keep_names=True).form(b)))
+    am = mirror_form(fa, set_name)
+    if am == fb:
+        return True, None
+    i = 0
+    n = min(len(am), len(fb))
+    while i < n and am[i] == fb[i]:
+        i += 1
+    return False, (am[max(0, i - 60):i + 60], fb[max(0, i - 60):i + 60])
